@@ -175,8 +175,16 @@ def coq_make(targets, timeout=1800):
 def _coq_make_locked(targets, timeout=1800):
     mk = os.path.join(COQDIR, "Makefile")
     cp = os.path.join(COQDIR, "_CoqProject")
-    if not os.path.exists(mk) or os.path.getmtime(mk) < os.path.getmtime(cp):
-        run(["coq_makefile", "-f", "_CoqProject", "-o", "Makefile"], cwd=COQDIR, check=True)
+    # Generated files (coq/Gen/*.v) are listed in _CoqProject but exist only once their translator has run; a listed
+    # file that is missing would make coqdep (and with it every target) fail.  The Makefile is therefore generated
+    # from the project restricted to the files present now, and regenerated whenever that set changes.
+    lines = open(cp).read().splitlines()
+    present = [l for l in lines if not l.strip().endswith(".v") or os.path.exists(os.path.join(COQDIR, l.strip()))]
+    pp = os.path.join(COQDIR, "_CoqProject.present")
+    txt = "\n".join(present) + "\n"
+    if not os.path.exists(pp) or open(pp).read() != txt or not os.path.exists(mk):
+        open(pp, "w").write(txt)
+        run(["coq_makefile", "-f", "_CoqProject.present", "-o", "Makefile"], cwd=COQDIR, check=True)
     p = run(["timeout", str(timeout), "make", "-k", "-j", str(NCPU)] + list(targets), cwd=COQDIR, timeout=timeout + 30)
     return p.returncode == 0, p.stdout + p.stderr
 
